@@ -8,6 +8,8 @@ independent of the repository's gather/scatter loops; bit-exact. Values are uniq
 identifies the cell it came from. Contracts (icontract) on the nine gather/scatter/index utilities see every
 internal call made by the constructors.
 """
+import copy
+
 import numpy as np
 
 from harness import env, gen
@@ -34,7 +36,8 @@ _CONTRACTS = ["contract:array_2d_util.array_2d_slim_from", "contract:array_2d_ut
               "contract:mask_2d_util.mask_slim_indexes_from"]
 MIN_MONITORS = {"*": dict({c: 1 for c in _CONTRACTS}, **{"array2d.slim": 1, "grid2d.native": 1, "vector.slim": 1,
                                                          "indexes.native_for_slim": 1, "array1d.roundtrip": 1, "shared_input.two_masks": 1,
-                                                         "shared_input.remasked_structure": 1})}
+                                                         "shared_input.remasked_structure": 1, "history.native_after_assignment": 20,
+                                                         "history.indexes_after_mask_edit": 20})}
 
 
 def plan(tier, seed):
@@ -264,6 +267,43 @@ def check_2d(ctx, m, rng, full=True, lite=False):
             C2 = aa.Array2D(values=B1, mask=mask2)
             ctx.check(np.array_equal(_np(C1.slim), pristine[~m]) and np.array_equal(_np(C2.slim), pristine[~m2]) and np.array_equal(_np(B1.native), pristine),
                       "shared_input.remasked_structure", mask=m, second_mask=m2, got=lambda: [_np(C1.slim), _np(C2.slim)])
+    if full and n >= 1:
+        # history: the native forms were read above; now values are assigned in place (structure[k] = v, structure[:, 1] += c,
+        # native-stored structure[y, x] = v) and a copy is edited - the native form must hold the values the structure holds NOW
+        sl0 = 1.0 + np.arange(n) + 0.25 * rng.random(n)
+        k = int(rng.integers(n))
+        yk, xk = np.argwhere(~m)[k]
+        A = aa.Array2D(values=sl0.copy(), mask=mask)
+        _ = _np(A.native)
+        A[k] = -77.5
+        cur = sl0.copy(); cur[k] = -77.5
+        natc = np.zeros((H, W)); natc[~m] = cur
+        ctx.check(np.array_equal(_np(A.slim), cur) and np.array_equal(_np(A.native), natc) and np.array_equal(_np(A.native.slim), cur),
+                  "history.native_after_assignment", structure="Array2D slim-stored", mask=m, k=k, expected=natc, got=lambda: _np(A.native))
+        gs0 = np.stack([sl0, -3.0 * sl0 + 0.5], axis=-1)
+        G = aa.Grid2D(values=gs0.copy(), mask=mask)
+        _ = _np(G.native)
+        G[k] = (10.25, -20.5)
+        gcur = gs0.copy(); gcur[k] = (10.25, -20.5)
+        gnc = np.zeros((H, W, 2)); gnc[~m] = gcur
+        ok1 = np.array_equal(_np(G.slim), gcur) and np.array_equal(_np(G.native), gnc) and np.array_equal(_np(G.native.slim), gcur)
+        G[:, 1] += 0.375
+        gcur[:, 1] += 0.375
+        gnc[~m] = gcur
+        ok2 = np.array_equal(_np(G.slim), gcur) and np.array_equal(_np(G.native), gnc)
+        Gc = copy.copy(G)
+        Gc[k] = (1.5, 2.5)
+        gcc = gcur.copy(); gcc[k] = (1.5, 2.5)
+        gncc = gnc.copy(); gncc[yk, xk] = (1.5, 2.5)
+        ok3 = np.array_equal(_np(Gc.native), gncc) and np.array_equal(_np(G.native), gnc)
+        ctx.check(ok1 and ok2 and ok3, "history.native_after_assignment", structure="Grid2D slim-stored", mask=m, k=k, step_ok=[ok1, ok2, ok3],
+                  expected=gnc, got=lambda: _np(G.native))
+        GN = aa.Grid2D(values=gnc.copy(), mask=mask, store_native=True)
+        _ = (_np(GN.native), _np(GN.slim))
+        GN[yk, xk] = (7.125, 8.25)
+        gn2 = gnc.copy(); gn2[yk, xk] = (7.125, 8.25)
+        ctx.check(np.array_equal(_np(GN.native), gn2) and np.array_equal(_np(GN.slim), gn2[~m]), "history.native_after_assignment",
+                  structure="Grid2D native-stored", mask=m, pixel=(int(yk), int(xk)), expected=gn2, got=lambda: _np(GN.native))
     di = mask.derive_indexes
     nfs = _np(di.native_for_slim)
     ctx.check(np.array_equal(nfs, np.argwhere(~m)), "indexes.native_for_slim", mask=m, got=nfs)
@@ -273,6 +313,29 @@ def check_2d(ctx, m, rng, full=True, lite=False):
     ctx.check(np.array_equal(np.sort(np.concatenate([un, ma])), np.arange(H * W)), "indexes.partition", mask=m)
     # slim index k <-> k-th unmasked pixel in row-major order, consistently across the lists
     ctx.check(np.array_equal(nfs[:, 0] * W + nfs[:, 1], un), "indexes.consistent", mask=m)
+    if full and H * W >= 2:
+        # history: the lists were read above; the SAME mask object is now edited in place (mask[y, x] = ...) and a copy of it is
+        # edited too - the lists published afterwards must describe the mask as it is now
+        for how in ("in_place", "copy_then_edit"):
+            mk = aa.Mask2D(mask=m.copy(), pixel_scales=(1.0, 2.0))
+            _ = (_np(mk.derive_indexes.native_for_slim), _np(mk.derive_indexes.unmasked_slim), _np(mk.derive_indexes.masked_slim))
+            tgt = copy.copy(mk) if how == "copy_then_edit" else mk
+            cand = np.argwhere(m) if (n == 1) else np.argwhere(np.ones_like(m))
+            y_, x_ = cand[int(rng.integers(len(cand)))]
+            m2_ = m.copy()
+            m2_[y_, x_] = not m2_[y_, x_]
+            tgt[y_, x_] = bool(m2_[y_, x_])
+            d2 = tgt.derive_indexes
+            nfs2, un2, ma2 = _np(d2.native_for_slim), _np(d2.unmasked_slim), _np(d2.masked_slim)
+            okh = (np.array_equal(nfs2, np.argwhere(~m2_)) and np.array_equal(un2, np.flatnonzero(~m2_.ravel()))
+                   and np.array_equal(ma2, np.flatnonzero(m2_.ravel())))
+            v2 = 1.0 + np.arange(int((~m2_).sum()), dtype=float)
+            A2 = aa.Array2D(values=v2.copy(), mask=tgt)
+            n2 = np.zeros((H, W)); n2[~m2_] = v2
+            okh = okh and np.array_equal(_np(A2.native), n2) and np.array_equal(_np(A2.native.slim), v2)
+            if how == "copy_then_edit":
+                okh = okh and np.array_equal(_np(mk.derive_indexes.native_for_slim), np.argwhere(~m))
+            ctx.check(okh, "history.indexes_after_mask_edit", how=how, mask_before=m, mask_now=m2_, native_for_slim=nfs2, unmasked_slim=un2)
     ctx.case("2d", m, nontrivial=bool(m.any()), cls=classes_of(m),
              sample=lambda: {"mask": m.astype(int).tolist(), "unmasked": n, "constructions": 24 if full else (4 if lite else 8)})
 
